@@ -342,6 +342,10 @@ def check_source(src, family="?", reduce=True, want_labels=True, tolerate=True, 
                 res.labels = ["rule:%s" % r for r in sorted({s[0] for s in sig})]
             except Exception:  # noqa: BLE001
                 res.labels = ["rule:?"]
+        if v is not None and v[0] == "parser-drops-tokens":
+            # xonsh's reading of the formatted text leaves out part of that text: nothing to compare with
+            res.status = "skip:parser-drops-tokens-of-output"
+            return res
         if v is not None:
             _attribute(res, ref, out, script, family, c17_findings, tolerate)
         else:
@@ -438,7 +442,11 @@ def _attribute(res, ref, out, script, family, c17_findings, tolerate=True):
     if tolerate and known_units and common.h64(src)[-1] != "0":     # deterministic 15-in-16, no draw outside Hypothesis
         for fid in {f for _, f in known_units}:
             res.tolerated[fid] = res.tolerated.get(fid, 0) + 1
-        if verdict(ref, _apply(src, rest)) is None:
+        v_rest = verdict(ref, _apply(src, rest))
+        if v_rest is None:
+            return
+        if v_rest[0] == "parser-drops-tokens":
+            res.labels.append("exempt:parser-drops-tokens-of-the-formatted-text")
             return
         # something else is wrong too: attribute the whole script (recorded shapes included), the validated path
     applied, withheld = _culprits(ref, units)
@@ -815,7 +823,7 @@ def worker_xsh(arg):
         g = c17_xgen.XGen(rnd, avoid=avoid)
         ctx = "empty"
         shape = rnd.randrange(10)
-        if shape < 5:
+        if shape < 6:
             src, fam = g.one_line(), "xonsh-line"
         elif shape < 8:
             src, fam = g.program(), "xonsh-program"
@@ -1220,7 +1228,7 @@ def main(run):
                     [(common.worker_seed(run.seed, w), npy, 20 + 8 * (w % 4), run.scratch) for w in range(nw)])
     lap("python-generated")
     # (b), (c) generated xonsh and mixtures
-    nx = run.n(int(os.environ.get("C17_NX", 700)), 24000)
+    nx = run.n(int(os.environ.get("C17_NX", 420)), 14000)
     common.pool_map(run, __name__, "worker_xsh", [(common.worker_seed(run.seed, 100 + w), nx, run.scratch) for w in range(nw)])
     lap("xonsh-generated")
     # (e) untokenisable input and the CLI
